@@ -185,6 +185,14 @@ class _Match(Generic[AnyStr]):
     def match(self, root_dir: AnyStr | None = None, dir_fd: int | None = None) -> bool:
         """Match."""
 
+        patterns = self.include or self.exclude
+        if patterns and not isinstance(self.filename, type(patterns[0].pattern)):
+            raise TypeError(
+                "The filename and pattern should be of the same type, not {} and {}".format(
+                    type(self.filename), type(patterns[0].pattern)
+                )
+            )
+
         if self.real:
             if isinstance(self.filename, bytes):
                 root = root_dir if root_dir is not None else b'.'  # type: AnyStr
@@ -326,6 +334,14 @@ class WcRegexp(util.Immutable, Generic[AnyStr]):
         dir_fd: int | None = None
     ) -> bool:
         """Filter filenames."""
+
+        patterns = self._include or self._exclude
+        if patterns and not isinstance(os.fspath(filename), type(patterns[0].pattern)):
+            raise TypeError(
+                "The filename and pattern should be of the same type, not {} and {}".format(
+                    type(os.fspath(filename)), type(patterns[0].pattern)
+                )
+            )
 
         if not filename:
             return False
